@@ -50,7 +50,7 @@ def render(case):
     collision = False
     for s in case["stmts"]:
         k = s["k"]
-        if k != "fill" and k not in ("id", "idpin") and k != "full" and (s["c"] % len(cases)) not in cited:
+        if k not in ("fill", "longfill") and k not in ("id", "idpin") and k != "full" and (s["c"] % len(cases)) not in cited:
             k = "full"  # precondition of the statement: first cited in full
         if k in ("id", "idpin") and not cited:
             k = "fill"
@@ -68,6 +68,11 @@ def render(case):
             last_res = i
         elif k == "fill":
             t = FILL[s.get("i", 0) % len(FILL)]
+        elif k == "longfill":
+            # several hundred characters of ordinary prose (no citation, stop word, section sign or line break):
+            # the next reference sits beyond the 300-character backward scan window
+            n = 7 + s.get("i", 0) % 4
+            t = " ".join(FILL[(s.get("i", 0) + j) % len(FILL)] for j in range(n)) + " " + "Z" * (s.get("pin", 0) % 9) + "."
         else:
             if k in ("short", "shortante", "supra", "ref"):
                 i = s["c"] % len(cases)
@@ -207,7 +212,7 @@ def scenario(draw, max_cases=5, max_stmts=9):
             page += 1
         cases.append({"pl": names[2 * i], "df": names[2 * i + 1], "rep": rep, "canon": canon, "vol": vol, "page": page, "year": draw(st.integers(1950, 2020))})
     stmt = st.fixed_dictionaries({
-        "k": st.sampled_from(["full", "full", "short", "shortante", "supra", "id", "idpin", "fill", "ref"]),
+        "k": st.sampled_from(["full", "full", "short", "shortante", "supra", "id", "idpin", "fill", "ref", "longfill"]),
         "c": st.integers(0, 4), "pin": st.integers(0, 400), "party": st.integers(0, 1), "lead": st.integers(0, 2),
         "comma": st.booleans(), "i": st.integers(0, 3), "range": st.integers(0, 3),
     })
